@@ -220,7 +220,7 @@ def run_walk(repo, tier, seed, only=None):
             except Exception as e:
                 found = e
             if found is not n:
-                R.fail('bounded:C09+C17.node-reported-by-the-walk-is-the-one-found-at-its-path', f'doc={text!r}: path {list(p)!r}', {'family': 'walk', 'docs': [text]})
+                R.fail('bounded:C09+C16+C17.node-reported-by-the-walk-is-the-one-found-at-its-path', f'doc={text!r}: path {list(p)!r}', {'family': 'walk', 'docs': [text]})
                 break
             s = NodePath.get_str_path(p)
             back = list(NodePath.get_list_path(s))
@@ -372,7 +372,7 @@ def register3(R):
                            'every text of length <= 5 (quick) / 7 (thorough) over the alphabet a 0 1 _ . [ ] - compared with an independent reading of the path grammar; '
                            '400 / 6000 component lists of length <= 4 with multi-digit and negative indices converted to text and back',
                            stands_in_for='NodePath.split_path / join_path (regular expression with look-around; outside the generated verification conditions)'))
-    R.tasks.append(Bounded('bounded:C17-walk-lookup-and-path-text', ('C17', 'C14', 'C09'), run_walk,
+    R.tasks.append(Bounded('bounded:C17-walk-lookup-and-path-text', ('C17', 'C14', 'C09', 'C16'), run_walk,
                            'parsed documents of depth<=3 with mapping, list, function, path and placeholder nodes; quick 200 / thorough 3000 trees; path components alphanumeric names and integers',
                            stands_in_for='ComposedNode.nodes_with_paths (nested generator loops; its contract is ASSUMED by Config.check_missing and _require_all_new), get_node/_get_node, NodePath.split_path/join_path (regular expressions)'))
 
